@@ -18,6 +18,8 @@ def P(qr, qw, tr, tw, **kw):
 PLAN = {
     "C01": P(6000, 75, 200000, 900),
     "C02": P(5000, 75, 150000, 900),
+    "C13": P(800, 110, 20000, 1500, chunk=60, watchdog_s=120),
+    "C14": P(800, 110, 20000, 1500, chunk=60, watchdog_s=120),
     "C12": P(1500, 100, 40000, 1200, chunk=150),
     "C11": P(1200, 100, 30000, 1200, chunk=150),
     "C10": P(1200, 100, 30000, 1200, chunk=150),
@@ -30,6 +32,16 @@ PLAN = {
 }
 
 LEVELS = {
+    "C13": {"level": "exploration", "rule": RULE,
+            "text": "histories of uploads / bundle deletes / squashes over 1-3 repositories (prefix-related names) in one or two contexts sharing one blob bucket with heavy dedup; hours of simulated time; reverse-index build with the real pebble KV, chunk sizes 1..500000, the 5-minute uploader driven by stalled calls, then delete-unused, with late uploads started during the build, between both commands and during the deletion. Three fault configurations: transient errors / lost acknowledgements on index-chunk writes, list pages, reads, attribute reads and deletes; a crash of the build at a chosen write followed by a --resume run; fault-free. Oracle: whenever both commands report success, every bundle committed before the index started and every bundle uploaded after it downloads byte-identical",
+            "note": "bundles committed while the index is being built are outside the statement and are not generated; late uploads never reuse content orphaned at index time in the open search (recorded finding, reproduced by a directed scenario); weak-replay: pebble and errgroup scheduling make event logs of one seed differ, violations must reproduce",
+            "components": {"real": ["pkg/core purge (build, resume, delete-unused), upload/download/delete/squash", "pebble KV", "pkg/cafs"], "stub": STUB},
+            "assumptions": ["all clients share one clock"]},
+    "C14": {"level": "exploration", "rule": RULE,
+            "text": "the fault-free configuration of the C13 world: the union of the uploaded index chunks equals exactly the set of roots and leaves referenced by the scanned bundles of all contexts, each key once, for chunk sizes 1..500000 and with stalled calls making the 5-minute uploader fire mid-scan; after delete-unused every blob older than the index and unreferenced is gone and every other blob is kept, and all bundles download. Lock: 2..5 concurrent PurgeLock under sampled interleavings (optionally one forced): exactly one succeeds, none while held, exactly one after PurgeUnlock",
+            "note": "trusts simstore timestamps (object Updated time = simulated clock)",
+            "components": {"real": ["pkg/core purge + lock", "pebble KV"], "stub": STUB},
+            "assumptions": []},
     "C12": {"level": "exploration", "rule": RULE,
             "text": "the real diamond implementation driven through sampled interleavings of 1-3 split ids x up to 3 runs each (concurrent second runs, crashes at a chosen write and re-runs), an early committer racing the uploads, a committer crashed before its bundle descriptor and retried, and a canceller racing the commit. Oracles: at most one bundle.yaml per diamond; commits/new splits refused once the diamond is terminal; a done split cannot be rerun; the bundle is exactly the merge (C11 oracle) of the done generation of every split whose split-done landed before the winning commit was invoked (those landing during it may or may not be in). Two recorded findings (two bundles after concurrent commits / after a commit that died past its bundle descriptor is retried) are reproduced by directed scenarios and excluded from the open search",
             "note": "decided by simulation of the implementation only; the exhaustive protocol model the quantifier also mentions is model checking, outside this technique family (DESIGN §6 C12)",
